@@ -863,6 +863,21 @@ def inline_fresh_helpers(repo: Repo, max_inlines: int = 200) -> list[str]:
             serial += 1
             tag = f"{name.strip('_')}_{serial}"
             renames = {v: f"{v}__{tag}" for v in stored}
+            if shape == "assign" and isinstance(st, ast.Assign):
+                # a helper local that has the name of a variable this very statement assigns needs no renaming (the caller's variable
+                # is overwritten by the statement anyway) - unless the caller could observe the early write: the name is read by an
+                # argument, or the statement stands in a `try` whose handlers might look at it after a failure of the helper
+                tnames = {x.id for x in ast.walk(st.targets[0]) if isinstance(x, ast.Name)}
+                argnames = {x.id for v_ in mapping.values() for x in ast.walk(v_) if isinstance(x, ast.Name)}
+                cur_ = getattr(st, "_parent", None)
+                in_try = False
+                while cur_ is not None and cur_ is not caller.node:
+                    in_try = in_try or isinstance(cur_, ast.Try)
+                    cur_ = getattr(cur_, "_parent", None)
+                if not in_try:
+                    for v in list(renames):
+                        if v in tnames and v not in argnames:
+                            del renames[v]
             # `t = self._h(...)` where the helper ends in `return r`: r is the caller's t (no copy, no renaming of r)
             same_var = None
             if shape == "assign" and not early and last_ret is not None and isinstance(last_ret.value, ast.Name) and last_ret.value.id in stored:
@@ -875,6 +890,12 @@ def inline_fresh_helpers(repo: Repo, max_inlines: int = 200) -> list[str]:
             # `t = helper(...)` with several returns: every `return v` becomes `t = v` (+ jump) - the caller's own variable is the
             # result variable, so that facts and patterns of the rules speak about the same name as in the un-extracted code
             own_target = None
+            tuple_target = None
+            if shape == "assign" and isinstance(st, ast.Assign) and isinstance(st.targets[0], ast.Tuple) and all(isinstance(e_, ast.Name) for e_ in st.targets[0].elts) \
+                    and rets and all(isinstance(r_.value, ast.Tuple) and len(r_.value.elts) == len(st.targets[0].elts) for r_ in rets) \
+                    and not _may_fall_through(body) and not ({e_.id for e_ in st.targets[0].elts} & set(renames.values())):
+                # `a, b = helper(...)` where every return is a pair: each `return x, y` becomes `a, b = x, y` (+ jump)
+                tuple_target = st.targets[0]
             if shape == "assign" and early and isinstance(st, ast.Assign) and isinstance(st.targets[0], ast.Name):
                 tn_ = st.targets[0].id
                 if not any(isinstance(x, ast.Name) and x.id == tn_ for v_ in mapping.values() for x in ast.walk(v_)) and tn_ not in renames.values():
@@ -890,7 +911,9 @@ def inline_fresh_helpers(repo: Repo, max_inlines: int = 200) -> list[str]:
             need_res = shape in ("assign", "return", "test", "wtest")
             use_block = bool(early)
             direct = None
-            if not early and last_ret is not None and last_ret.value is not None and shape in ("assign", "return"):
+            if tuple_target is not None:
+                need_res = False
+            if tuple_target is None and not early and last_ret is not None and last_ret.value is not None and shape in ("assign", "return"):
                 # single return at the end: no result variable, the returned expression goes straight to the caller's statement
                 direct = new.pop()
                 need_res = False
@@ -906,6 +929,11 @@ def inline_fresh_helpers(repo: Repo, max_inlines: int = 200) -> list[str]:
                 for s2 in stmts:
                     if isinstance(s2, ast.Return) and tail_call:
                         out.append(s2 if s2.value is not None else ast.copy_location(ast.Return(ast.Constant(None)), s2))
+                        continue
+                    if isinstance(s2, ast.Return) and tuple_target is not None:
+                        out.append(ast.copy_location(ast.Assign(targets=[clone(tuple_target)], value=s2.value), s2))
+                        if use_block:
+                            out.append(ast.copy_location(ast.Raise(exc=ast.Name(id=jump, ctx=ast.Load()), cause=None), s2))
                         continue
                     if isinstance(s2, ast.Return):
                         if need_res and s2.value is not None and shape in ("test", "wtest") and not isinstance(s2.value, ast.Constant):
@@ -948,7 +976,7 @@ def inline_fresh_helpers(repo: Repo, max_inlines: int = 200) -> list[str]:
                 new = [blk]
             new = pre + new
             if shape == "assign":
-                if (direct is not None and same_var is not None) or own_target is not None:
+                if (direct is not None and same_var is not None) or own_target is not None or tuple_target is not None:
                     pass        # the helper's own variable *is* the target now / the returns assign the target themselves
                 else:
                     repl = clone(st)
@@ -1126,6 +1154,252 @@ def _inline_single_use_temps(fn) -> bool:
     return changed
 
 
+_PURE_CALLS = {"len", "min", "max", "abs", "bool", "int", "isinstance", "id", "type"}
+
+
+def _is_pure_expr(e) -> bool:
+    """no effect, no dependence on anything but the values it names: safe to evaluate again later if those are unchanged"""
+    if isinstance(e, (ast.Constant, ast.Name)):
+        return True
+    if isinstance(e, ast.Attribute):
+        return _is_pure_expr(e.value)
+    if isinstance(e, ast.Subscript):
+        return _is_pure_expr(e.value) and _is_pure_expr(e.slice)
+    if isinstance(e, ast.Slice):
+        return all(x is None or _is_pure_expr(x) for x in (e.lower, e.upper, e.step))
+    if isinstance(e, ast.Call):
+        return isinstance(e.func, ast.Name) and e.func.id in _PURE_CALLS and not e.keywords and all(_is_pure_expr(a) for a in e.args)
+    if isinstance(e, ast.BinOp):
+        return isinstance(e.op, (ast.Add, ast.Sub, ast.Mult, ast.FloorDiv, ast.Mod)) and _is_pure_expr(e.left) and _is_pure_expr(e.right)
+    if isinstance(e, ast.UnaryOp):
+        return _is_pure_expr(e.operand)
+    if isinstance(e, ast.Compare):
+        return _is_pure_expr(e.left) and all(_is_pure_expr(c) for c in e.comparators)
+    if isinstance(e, ast.BoolOp):
+        return all(_is_pure_expr(v) for v in e.values)
+    return False
+
+
+def _split_parallel_assignments(fn) -> bool:
+    """`a, b = x, y` with pure right-hand sides that do not mention a or b is `a = x; b = y`"""
+    changed = False
+    for par in [fn] + list(own_walk(fn)):
+        for fld in ("body", "orelse", "finalbody"):
+            blk = getattr(par, fld, None)
+            if not isinstance(blk, list):
+                continue
+            i = 0
+            while i < len(blk):
+                st = blk[i]
+                if isinstance(st, ast.Assign) and len(st.targets) == 1 and isinstance(st.targets[0], ast.Tuple) and isinstance(st.value, ast.Tuple) \
+                        and len(st.targets[0].elts) == len(st.value.elts) and all(isinstance(t, ast.Name) for t in st.targets[0].elts) \
+                        and all(_is_pure_expr(v) for v in st.value.elts):
+                    tn = {t.id for t in st.targets[0].elts}
+                    tl = [t.id for t in st.targets[0].elts]
+                    # sequential assignment gives the same result if no later right-hand side reads an earlier target
+                    # (`a, b = a, e` with e not mentioning a is fine: `a = a` changes nothing)
+                    if len(set(tl)) == len(tl) and not any(isinstance(x, ast.Name) and x.id in tl[:j] for j, v in enumerate(st.value.elts) for x in ast.walk(v)):
+                        parts = [ast.copy_location(ast.Assign(targets=[t], value=v), st) for t, v in zip(st.targets[0].elts, st.value.elts)
+                                 if not (isinstance(v, ast.Name) and v.id == t.id)]        # `a = a` is dropped
+                        parts = parts or [ast.copy_location(ast.Pass(), st)]
+                        blk[i:i + 1] = parts
+                        for x in parts:
+                            ast.fix_missing_locations(x)
+                        changed = True
+                        i += len(parts)
+                        continue
+                i += 1
+    return changed
+
+
+def _canonical_clamps(fn) -> bool:
+    """`x = E` immediately followed by `if x < 0: x = 0` is `x = max(E, 0)`"""
+    changed = False
+    for par in [fn] + list(own_walk(fn)):
+        for fld in ("body", "orelse", "finalbody"):
+            blk = getattr(par, fld, None)
+            if not isinstance(blk, list) or len(blk) < 2:
+                continue
+            i = 0
+            while i < len(blk) - 1:
+                a, b = blk[i], blk[i + 1]
+                if isinstance(a, ast.Assign) and len(a.targets) == 1 and isinstance(a.targets[0], ast.Name) and isinstance(b, ast.If) and not b.orelse \
+                        and len(b.body) == 1 and isinstance(b.body[0], ast.Assign) and len(b.body[0].targets) == 1 \
+                        and isinstance(b.body[0].targets[0], ast.Name) and b.body[0].targets[0].id == a.targets[0].id \
+                        and isinstance(b.body[0].value, ast.Constant) and b.body[0].value.value == 0 and not isinstance(b.body[0].value.value, bool) \
+                        and isinstance(b.test, ast.Compare) and len(b.test.ops) == 1 and isinstance(b.test.ops[0], ast.Lt) \
+                        and isinstance(b.test.left, ast.Name) and b.test.left.id == a.targets[0].id \
+                        and isinstance(b.test.comparators[0], ast.Constant) and b.test.comparators[0].value == 0 and _is_pure_expr(a.value):
+                    a.value = ast.copy_location(ast.Call(func=ast.Name(id="max", ctx=ast.Load()), args=[a.value, ast.Constant(0)], keywords=[]), a.value)
+                    ast.fix_missing_locations(a)
+                    del blk[i + 1]
+                    changed = True
+                i += 1
+    return changed
+
+
+def _forward_pure_temps(fn) -> bool:
+    """A local assigned once from a pure expression that is more than a plain name or attribute chain (`n = len(self._buffer)`,
+    `head = chunk[:k]`, `missing = nbytes - len(self._buffer)`) is replaced by that expression at its uses - hoisting a sub-expression
+    into a local, or folding one back, is then the same program for the rules - provided that every use follows the definition
+    inside the same block and nothing between the definition and the use can change a value the expression reads: no store to a
+    name it mentions, and, if it reads attributes, no suspension point, no call other than the pure builtins, no store/delete
+    through an attribute or subscript."""
+    from .source import clone
+    params = {a.arg for a in fn.args.posonlyargs + fn.args.args + fn.args.kwonlyargs}
+    stores: dict[str, list] = {}
+    for n in own_walk(fn):
+        if isinstance(n, ast.Name) and isinstance(n.ctx, (ast.Store, ast.Del)):
+            stores.setdefault(n.id, []).append(n)
+        elif isinstance(n, ast.ExceptHandler) and n.name:
+            stores.setdefault(n.name, []).append(n)
+    changed = False
+    for t, sts in list(stores.items()):
+        if len(sts) != 1 or t in params or not isinstance(sts[0], ast.Name):
+            continue
+        d = getattr(sts[0], "_parent", None)
+        if not (isinstance(d, (ast.Assign, ast.AnnAssign)) and getattr(d, "value", None) is not None
+                and ((isinstance(d, ast.Assign) and d.targets == [sts[0]]) or (isinstance(d, ast.AnnAssign) and d.target is sts[0]))):
+            continue
+        v = d.value
+        if isinstance(v, (ast.Name, ast.Attribute, ast.Constant)) or not _is_pure_expr(v):
+            continue
+        if any(isinstance(x, ast.Name) and x.id == t for x in ast.walk(v)):
+            continue
+        holder = getattr(d, "_parent", None)
+        blk = next((getattr(holder, fl) for fl in ("body", "orelse", "finalbody") if isinstance(getattr(holder, fl, None), list) and d in getattr(holder, fl)), None)
+        if blk is None:
+            continue
+        after = blk[blk.index(d) + 1:]
+        uses = [x for x in own_walk(fn) if isinstance(x, ast.Name) and x.id == t and isinstance(x.ctx, ast.Load)]
+        inside = {id(x) for s_ in after for x in ast.walk(s_)}
+        if not uses or any(id(u_) not in inside for u_ in uses):
+            continue
+        if sum(1 for x in ast.walk(fn) if isinstance(x, ast.Name) and x.id == t) != len(uses) + 1:
+            continue        # also used in a nested function
+        names = {x.id for x in ast.walk(v) if isinstance(x, ast.Name)} - _PURE_CALLS
+        reads_attrs = any(isinstance(x, ast.Attribute) for x in ast.walk(v))
+        use_ids = {id(u_) for u_ in uses}
+
+        def _root(x):
+            while isinstance(x, (ast.Attribute, ast.Subscript)):
+                x = x.value
+            return x.id if isinstance(x, ast.Name) else None
+
+        def has_use(node):
+            return any(id(x) in use_ids for x in ast.walk(node))
+
+        def effect(node) -> bool:
+            """may evaluating `node` change a value the expression reads?"""
+            for x in ast.walk(node):
+                if isinstance(x, ast.Name) and isinstance(x.ctx, (ast.Store, ast.Del)) and x.id in names:
+                    return True
+                if isinstance(x, ast.ExceptHandler) and x.name in names:
+                    return True
+                # the objects the expression's locals refer to: mutated through a method call or a subscript store on that local
+                if isinstance(x, ast.Call) and isinstance(x.func, ast.Attribute) and _root(x.func.value) in names:
+                    return True
+                if isinstance(x, ast.Subscript) and isinstance(x.ctx, (ast.Store, ast.Del)) and _root(x.value) in names:
+                    return True
+                if reads_attrs:
+                    if isinstance(x, (ast.Await, ast.Yield, ast.YieldFrom, ast.AsyncFor, ast.AsyncWith)):
+                        return True
+                    if isinstance(x, (ast.Attribute, ast.Subscript)) and isinstance(x.ctx, (ast.Store, ast.Del)):
+                        return True
+                    if isinstance(x, ast.Call) and not (isinstance(x.func, ast.Name) and (x.func.id in _PURE_CALLS or x.func.id[:1].isupper()
+                                                                                          or x.func.id in ("bytes", "cast", "str", "repr"))):
+                        return True
+            return False
+
+        def simple_ok(st_, dirty) -> bool:
+            """uses inside a simple statement: fine if nothing dirty happened before; if the statement itself has an effect, its
+            uses must all be evaluated before that effect - i.e. sit in the arguments of the one outermost effectful call"""
+            if not has_use(st_):
+                return True
+            if dirty:
+                return False
+            if not effect(st_):
+                return True
+            calls = [x for x in ast.walk(st_) if isinstance(x, ast.Call) and effect(x)]
+            inner = [c for c in calls if not any(c is not o and any(y is c for y in ast.walk(o)) for o in calls)]     # outermost ones
+            if len(inner) != 1 or any(isinstance(x, (ast.Await, ast.Yield, ast.YieldFrom)) for x in ast.walk(st_) if not any(y is x for y in ast.walk(inner[0]))
+                                      and not (isinstance(x, ast.Await) and x.value is inner[0])):
+                return False
+            c0 = inner[0]
+            arg_ids = {id(y) for a_ in list(c0.args) + [k.value for k in c0.keywords] for y in ast.walk(a_)}
+            if any(effect(a_) for a_ in list(c0.args) + [k.value for k in c0.keywords]):
+                return False
+            return all(id(u_) in arg_ids for u_ in uses if any(y is u_ for y in ast.walk(st_)))
+
+        def scan(stmts, dirty):
+            """(ok, dirty at the end if control falls through)"""
+            for s_ in stmts:
+                if isinstance(s_, ast.If):
+                    if has_use(s_.test) and (dirty or effect(s_.test)):
+                        return False, True
+                    dirty = dirty or effect(s_.test)
+                    ok1, d1 = scan(s_.body, dirty)
+                    ok2, d2 = scan(s_.orelse, dirty)
+                    if not (ok1 and ok2):
+                        return False, True
+                    f1, f2 = _may_fall_through(s_.body), (_may_fall_through(s_.orelse) if s_.orelse else True)
+                    dirty = (d1 and f1) or ((d2 if s_.orelse else dirty) and f2)
+                elif isinstance(s_, (ast.While, ast.For, ast.AsyncFor)):
+                    head = s_.test if isinstance(s_, ast.While) else s_.iter
+                    d_in = dirty or effect(s_)
+                    if has_use(head) and d_in:
+                        return False, True
+                    ok1, _ = scan(s_.body, d_in)
+                    ok2, _ = scan(s_.orelse, d_in)
+                    if not (ok1 and ok2):
+                        return False, True
+                    dirty = d_in
+                elif isinstance(s_, (ast.With, ast.AsyncWith)):
+                    for it_ in s_.items:
+                        if has_use(it_.context_expr) and (dirty or effect(it_.context_expr)):
+                            return False, True
+                        dirty = dirty or effect(it_.context_expr) or isinstance(s_, ast.AsyncWith)
+                    ok1, dirty = scan(s_.body, dirty or (reads_attrs and isinstance(s_, ast.AsyncWith)))
+                    if not ok1:
+                        return False, True
+                elif isinstance(s_, ast.Try):
+                    ok1, d1 = scan(s_.body, dirty)
+                    d_any = dirty or effect(s_)
+                    oks = [ok1] + [scan(h_.body, d_any)[0] for h_ in s_.handlers] + [scan(s_.orelse, d1)[0], scan(s_.finalbody, d_any)[0]]
+                    if not all(oks):
+                        return False, True
+                    dirty = d_any
+                elif isinstance(s_, (ast.FunctionDef, ast.AsyncFunctionDef, ast.ClassDef, ast.Match)):
+                    if has_use(s_):
+                        return False, True
+                else:
+                    if not simple_ok(s_, dirty):
+                        return False, True
+                    dirty = dirty or effect(s_)
+            return True, dirty
+
+        ok, _ = scan(after, False)
+        if not ok:
+            continue
+        for u_ in uses:
+            h_ = getattr(u_, "_parent", None)
+            rep = ast.copy_location(clone(v), u_)
+            for f_, val in ast.iter_fields(h_) if h_ is not None else []:
+                if val is u_:
+                    setattr(h_, f_, rep)
+                elif isinstance(val, list) and any(y is u_ for y in val):
+                    val[[y is u_ for y in val].index(True)] = rep
+            ast.fix_missing_locations(rep)
+        blk.remove(d)
+        if not blk:
+            blk.append(ast.copy_location(ast.Pass(), d))
+        changed = True
+        for par_ in ast.walk(fn):
+            for ch in ast.iter_child_nodes(par_):
+                ch._parent = par_
+    return changed
+
+
 def _canonical_snapshot_pop_loops(fn) -> bool:
     """`for k in list(Q): v = Q.pop(k); BODY` over a mapping Q that BODY does not write is the keyed spelling of the head-take loop
     `while Q: k, v = Q.popitem(last=False); BODY`: the snapshot lists the keys in insertion order, every iteration removes exactly the
@@ -1222,6 +1496,14 @@ def resolve_aliases(repo: Repo):
             for par in ast.walk(f.node):
                 for chd in ast.iter_child_nodes(par):
                     chd._parent = par
+    for f in repo.all_funcs:
+        ch = _split_parallel_assignments(f.node)
+        ch = _canonical_clamps(f.node) or ch
+        if ch:
+            for par in ast.walk(f.node):
+                for chd in ast.iter_child_nodes(par):
+                    chd._parent = par
+        _forward_pure_temps(f.node)
     for f in repo.all_funcs:
         if _canonical_snapshot_pop_loops(f.node):
             for par in ast.walk(f.node):
